@@ -18,7 +18,8 @@ FUNCTIONS = {
             RUN_TESTS, RUNNER_LOOP, ('runner_spawn', 'runner.spawn_layer_in_subprocess'),
             # import errors are bad outcomes too: they reach the verdict through tests_from_suite / find_tests
             ('find_c09', 'find.tests_from_suite'), ('select_c03', 'find.find_tests'), ('find_c02', 'find.Find.global_setup')],
-    'C07': [('runner_spawn', 'runner.spawn_layer_in_subprocess'), ('process_c07', 'process.SubProcess.report')],
+    'C07': [('runner_spawn', 'runner.spawn_layer_in_subprocess'), ('process_c07', 'process.SubProcess.report'),
+            ('formatter_c13', 'process.SubProcess.global_setup')],
     'C04': [(L, 'runner.setup_layer'), (L, 'runner.tear_down_unneeded'), (L, 'runner.run_layer'),
             (L, 'runner.handle_layer_failure'), (RR, TR + '_restoreStdStreams'), (RR, TR + 'startTest'),
             (RR, TR + 'stopTest')] + EVENTS + [PROTOCOL, RUN_TESTS, RUNNER_LOOP]
@@ -28,12 +29,15 @@ FUNCTIONS = {
     'C05': [(L, 'runner.gather_layers'), (L, 'runner.order_by_bases'), (RR, TR + '__init__'), (RR, TR + 'testSetUp'),
             (RR, TR + 'testTearDown'), (RR, TR + 'startTest'), (RR, TR + 'stopTest'), (RR, TR + 'addSkip'), PROTOCOL],
     'C08': [('filter_c08', 'filter.build_filtering_func'), ('find_c14', 'find.find_suites'),
-            ('select_c03', 'filter.Filter.global_setup'), ('select_c03', 'find.find_tests')],
+            ('select_c03', 'filter.Filter.global_setup'), ('select_c03', 'find.find_tests'),
+            ('options_c08', 'options.get_options@filters')],
     'C12': [(RR, TR + 'startTest'), (RR, TR + 'addSkip'), PROTOCOL, RUN_TESTS, RUNNER_LOOP,
             ('process_c07', 'process.SubProcess.report'), ('report_c12', 'statistics.Statistics.report'),
             ('report_c12', 'filter.Filter.report')],
     'C13': [(RR, TR + '__init__'), (RR, TR + '_setUpStdStreams'), (RR, TR + '_restoreStdStreams'),
-            (RR, TR + 'startTest'), (RR, TR + 'stopTest')] + EVENTS + [PROTOCOL, RUN_TESTS],
+            (RR, TR + 'startTest'), (RR, TR + 'stopTest')] + EVENTS + [PROTOCOL, RUN_TESTS]
+           + [('formatter_c13', f) for f in ('formatter.OutputFormatter.print_std_streams', 'formatter.OutputFormatter.test_error',
+                                             'formatter.OutputFormatter.test_failure', 'process.SubProcess.global_setup')],
     'C16': [(RR, TR + m) for m in ('addError', 'addFailure', 'addUnexpectedSuccess', 'addSubTest')]
            + [PROTOCOL, RUN_TESTS, RUNNER_LOOP]
            + LAYER_FNS[2:] + [(L, 'runner.handle_layer_failure')],     # the final tear-down and verdict on every path
